@@ -189,7 +189,7 @@ theorem shared_first_split {votes : Profile} (hnd : (votes.map (·.1)).Nodup) {c
     have hfil : cs.filter (fun c => decide (c ∈ allRanked votes)) = cs := by
       rw [List.filter_eq_self]; intro x hx; simpa using hall x hx
     have hne : cs ≠ [] := by intro e; rw [e] at hlen; simp at hlen
-    simp only [rankedNext, Option.isNone_none, rankedNextGo, if_true, hfil]
+    simp only [rankedNext, Option.isNone_none, rankedNextGo, hfil, Bool.true_or, if_true]
     rw [if_pos hne]
   have hfict : (RankItem.shared cs :: rest, w) ∈ fictionalPile votes :=
     List.mem_filter.mpr ⟨hbw, by simp [sharedFirst]⟩
